@@ -252,18 +252,7 @@ def indeg_init(prog: Program) -> RuleResult:
         res.ok(f"{TOPO}:toposort_all/cycle", "orderings shorter than the graph make the result empty")
     else:
         res.fail(f"{TOPO}:toposort_all/cycle", "partial orderings of a cyclic graph are not rejected", mod, fn)
-    fn1 = prog.func(TOPO, "toposort")
-    okl = False
-    for node in walk_no_nested(fn1):
-        if isinstance(node, ast.If) and isinstance(node.test, ast.Compare):
-            text = ast.unparse(node.test)
-            returned = {dotted(r.value) for r in ast.walk(node) if isinstance(r, ast.Return) and r.value is not None}
-            if any(nm and f"len({nm})" in text for nm in returned) and f"len({func_params(fn1)[0]})" in text and isinstance(node.test.ops[0], ast.Eq):
-                okl = True
-    if okl:
-        res.ok(f"{TOPO}:toposort/cycle", "returns the ordering only when it covers the graph")
-    else:
-        res.fail(f"{TOPO}:toposort/cycle", "the ordering is returned without comparing its length with the graph", mod, fn1)
+    # (the verdict of the single-ordering routine is decided by TOPO-VERDICT)
     return res
 
 
@@ -291,6 +280,30 @@ def graph_keys(prog: Program) -> RuleResult:
         res.ok(f"{modname}:_make_prec_graph/all-leaves", short(it))
     pair_loops = [n for n in outer[0].body if isinstance(n, ast.For)]
     base = f"{modname}:_make_prec_graph"
+    # successor sets are extended, never replaced: the same family is followed by different families in different leaves
+    replaced = None
+    for node in walk_no_nested(fn):
+        if isinstance(node, ast.Call) and isinstance(node.func, ast.Attribute) and node.func.attr == "update" and dotted(node.func.value) == g:
+            replaced = node
+        elif isinstance(node, ast.Assign) and any(isinstance(t, ast.Subscript) and dotted(t.value) == g for t in node.targets):
+            val = node.value
+            empty = (isinstance(val, ast.Call) and dotted(val.func) == "set" and not val.args) or (isinstance(val, ast.Set) and not val.elts)
+            guarded_absent = any(
+                isinstance(t_, ast.Compare) and isinstance(t_.ops[0], ast.NotIn) and pol or isinstance(t_, ast.Compare) and isinstance(t_.ops[0], ast.In) and not pol
+                for t_, pol in guards(fn, node)
+            )
+            if not (empty and guarded_absent):
+                replaced = node
+    if replaced is not None:
+        res.fail(
+            f"{base}/accumulate",
+            f"`{short(replaced, 90)}` replaces the successor set of a family instead of extending it: the precedence "
+            "constraints of earlier leaves are lost and root orders contradicting a leaf are enumerated",
+            mod,
+            replaced,
+        )
+        return res
+    res.ok(f"{base}/accumulate", "successor sets are created empty when absent and only extended")
     if len(pair_loops) != 1:
         raise AnalysisError("_make_prec_graph: loop over adjacent pairs not recognised")
     pl = pair_loops[0]
